@@ -35,4 +35,5 @@ def run(check: Check, repo: Repo, tier: str) -> None:
     K.null_reject(check, repo)
     K.exact_int(check, repo)
     K.float_exact(check, repo)
+    K.str_verbatim(check, repo)
     K.int_range_table(check, repo)
